@@ -5,14 +5,29 @@ from . import common
 from .framework import Check, Failure
 
 
-def enumerate_tree(spec, filtered, limit=400000):
+def env_default_filters():
+    """the default `ready_operations_filter` of both environments (the property's mechanism: "the filter is the
+    default of both RL environments")"""
+    import inspect
+
+    common.import_impl()
+    from job_shop_lib.reinforcement_learning import SingleJobShopGraphEnv, MultiJobShopGraphEnv
+
+    out = []
+    for cls in (SingleJobShopGraphEnv, MultiJobShopGraphEnv):
+        out.append((cls.__name__, inspect.signature(cls.__init__).parameters["ready_operations_filter"].default))
+    return out
+
+
+def enumerate_tree(spec, filtered, limit=400000, custom=None):
     """Exhaustive search with the REAL Dispatcher: every available operation x every eligible machine.
     Returns (best makespan, leaves, nodes, dead_ends)."""
     common.import_impl()
     from job_shop_lib.dispatching import Dispatcher, filter_dominated_operations
 
     inst = common.build_instance(spec)
-    d = Dispatcher(inst, ready_operations_filter=filter_dominated_operations if filtered else None)
+    filt = custom if custom is not None else (filter_dominated_operations if filtered else None)
+    d = Dispatcher(inst, ready_operations_filter=filt)
     best = [None]
     cnt = {"leaves": 0, "nodes": 0, "dead": 0}
     total = sum(len(j) for j in spec)
@@ -69,10 +84,18 @@ class C08(Check):
 
     def gen_cases(self, rng, n):
         cases = []
-        max_total = 6 if self.tier == "quick" else 7
+        max_total = 7 if self.tier == "quick" else 8
         while len(cases) < n:
-            spec = common.gen_instance(rng, max_jobs=3, max_machines=3, max_ops=3, zero=False,
-                                       flexible=rng.random() < 0.5)
+            fam = rng.random()
+            if fam < 0.45:
+                spec = common.gen_instance(rng, max_jobs=3, max_machines=3, max_ops=3, zero=False,
+                                           flexible=rng.random() < 0.5)
+            elif fam < 0.8:
+                spec = self.tails_instance(rng)
+                self.note("family_tails")
+            else:
+                spec = self.recirculation_instance(rng)
+                self.note("family_recirculation")
             total = sum(len(j) for j in spec)
             if total < 4 or total > max_total:
                 continue
@@ -89,10 +112,55 @@ class C08(Check):
                 self.note("inst_flexible")
         return cases
 
+    @staticmethod
+    def tails_instance(rng):
+        """short contested operations (few machines, many equal durations) followed, for some jobs, by a long
+        tail on a private machine: which job wins a tie matters for the makespan"""
+        nj = rng.randint(2, 3)
+        shared = rng.randint(1, 2)
+        spec = []
+        for j in range(nj):
+            job = [[[rng.randrange(shared)], rng.choice([1, 2, 2, 3])] for _ in range(rng.randint(1, 2))]
+            if rng.random() < 0.6:
+                job.append([[shared + j], rng.randint(6, 12)])
+            if rng.random() < 0.3:
+                job.insert(0, [[shared + j], rng.randint(1, 4)])
+            spec.append(job)
+        return spec
+
+    @staticmethod
+    def recirculation_instance(rng):
+        """a job visiting the same machine twice in a row, other jobs with a short operation there and a long tail"""
+        m = rng.randrange(2)
+        spec = [[[[m], rng.randint(1, 3)], [[m], rng.randint(2, 6)]]]
+        if rng.random() < 0.6:
+            spec[0].append([[2], rng.randint(4, 9)])
+        if rng.random() < 0.4:
+            spec[0].insert(0, [[1 - m], rng.randint(1, 3)])
+        for j in range(rng.randint(1, 2)):
+            job = []
+            if rng.random() < 0.6:
+                job.append([[1 - m], rng.randint(1, 4)])
+            job.append([[m], rng.randint(1, 2)])
+            if rng.random() < 0.7:
+                job.append([[1 - m if rng.random() < 0.5 else 2], rng.randint(6, 12)])
+            spec.append(job)
+        return spec
+
     def run_impl(self, case):
+        from job_shop_lib.dispatching import filter_dominated_operations
+
         f = enumerate_tree(case["spec"], True)
         u = enumerate_tree(case["spec"], False)
-        return {"filtered": list(f), "unfiltered": list(u)}
+        envs = []
+        for name, default in env_default_filters():
+            if default is filter_dominated_operations:
+                envs.append([name, "is filter_dominated_operations", list(f)])
+            elif default is None:
+                envs.append([name, "no filter", list(u)])
+            else:
+                envs.append([name, "other", list(enumerate_tree(case["spec"], True, custom=default))])
+        return {"filtered": list(f), "unfiltered": list(u), "env_defaults": envs}
 
     def model_requests(self, case, obs):
         return [(8, [case["spec"]]), (304, [case["spec"]])]
@@ -124,6 +192,12 @@ class C08(Check):
                                  f"best makespan reachable through the dominated-operations filter is "
                                  f"{obs['filtered'][0]}, the optimum over all dispatch histories is {opt}",
                                  expected=opt, observed=obs["filtered"][0]))
+        for name, kind, res in obs["env_defaults"]:
+            if res[3] > 0 or res[0] is None or (opt is not None and res[0] != opt):
+                fails.append(Failure("oracle", "env-default-filter",
+                                     f"with the default ready_operations_filter of {name} ({kind}) the best reachable "
+                                     f"makespan is {res[0]} (dead ends: {res[3]}), the optimum is {opt}",
+                                     expected=opt, observed=res[0]))
         return fails
 
     def nontrivial(self, case, obs):
